@@ -56,21 +56,23 @@ def _truncate(path):
 
 
 def point(site, when, target=None):
-    """A step boundary: count it, fire the configured fault if this is the chosen one."""
+    """A step boundary: count it, fire the configured fault if this is the chosen one.
+
+    fault = {'proc', 'site', 'when', 'nth', 'kind'} and optionally 'soft': {'proc', 'site', 'when', 'count'}: the first
+    `count` passages of that boundary raise a (retryable) exception - models sort attempts that fail and are retried."""
     st = _STATE
     key = (role(), site, when)
     st['counts'][key] = n = st['counts'].get(key, 0) + 1
     f = st['fault']
-    if not f or f.get('site') != site or f.get('when') != when or f.get('proc') != role():
+    if not f:
         return
-    nth = f.get('nth', 1)
-    if not (n == nth or (f.get('persist') and n >= nth)):
-        # calls before the chosen one may be asked to fail softly (sort retries)
-        if f.get('fail_before') and n < nth:
-            if when == 'partial' and target:
-                _truncate(target)
-            emit({'ev': 'fault_fired', 'site': site, 'when': when, 'n': n, 'kind': 'exception', 'soft': True})
-            raise InjectedFault('injected (retryable) at %s:%s #%d' % (site, when, n))
+    soft = f.get('soft')
+    if soft and soft['site'] == site and soft['when'] == when and soft['proc'] == role() and n <= soft['count']:
+        if when == 'partial' and target:
+            _truncate(target)
+        emit({'ev': 'fault_fired', 'site': site, 'when': when, 'n': n, 'kind': 'exception', 'soft': True})
+        raise InjectedFault('injected (retryable) at %s:%s #%d' % (site, when, n))
+    if f.get('site') != site or f.get('when') != when or f.get('proc') != role() or n != f.get('nth', 1):
         return
     if when == 'partial' and target:
         _truncate(target)
